@@ -411,6 +411,81 @@ static void register_histories(bool thorough) {
     }
 }
 
+// ------------------------------------------------------------------ (B') array overloads as predecessors
+// horizontal(array) / vertical(array) / segment(array) with 1, 2 and 3 coordinates (monotone and
+// doubling back), relative and absolute, each followed by every continuation section; the
+// continuation is also issued through its command letter (t/T, s/S, a) after the same predecessor.
+// The model derives the continuation control point / direction from the true last polyline segment.
+static void run_array_pair(int64_t idx, const std::vector<int>& d, bool verbose) {
+    // d: tol, start, kind(3), set(8), rel(2), continuation(6)
+    static const std::vector<std::vector<double>> OFFS = {{2}, {-1.5}, {3, 1}, {1, 3}, {-2, 1}, {1, 3, 2}, {3, -1, 1}, {1, 2, 3}};
+    static const std::vector<std::vector<Vec2>> POFFS = {{{2, 1}}, {{-1, 2}}, {{3, 3}, {1, 1}}, {{2, 0}, {2, 2}}, {{-2, 1}, {1, -1}},
+                                                        {{1, 2}, {3, 2}, {2, 2}}, {{2, 0}, {2, 2}, {0, 2}}, {{1, 1}, {2, 1}, {3, 2}}};
+    const Vec2 start = STARTS[d[1]];
+    Spec a;
+    a.variant = 1;
+    a.rel = d[4];
+    if (d[2] == 0) { a.kind = HOR; for (double o : OFFS[d[3]]) a.vals.push_back(a.rel ? o : start.x + o); }
+    else if (d[2] == 1) { a.kind = VER; for (double o : OFFS[d[3]]) a.vals.push_back(a.rel ? o : start.y + o); }
+    else { a.kind = SEG; for (auto& o : POFFS[d[3]]) a.pts.push_back(a.rel ? o : start + o); }
+    a.name = fmt("%s_array%zu_%s", KIND_NAME[a.kind], a.kind == SEG ? a.pts.size() : a.vals.size(), a.rel ? "rel" : "abs");
+    Spec b;
+    switch (d[5]) {
+        case 0: b.kind = QSM; b.rel = true; b.variant = 0; b.pts = {{2, 1}}; break;
+        case 1: b.kind = QSM; b.rel = false; b.variant = 1; b.pts = {{1, -1}}; break;
+        case 2: b.kind = CSM; b.rel = true; b.variant = 1; b.pts = {{2, 1}, {3, 1}}; break;
+        case 3: b.kind = CSM; b.rel = false; b.variant = 1; b.pts = {{1, 1}, {2, -1}}; break;
+        case 4: b.kind = TURN; b.rx = 0.5; b.a0 = M_PI / 2; break;
+        default: b.kind = TURN; b.rx = 2; b.a0 = -0.3; break;
+    }
+    CaseCtx cx;
+    cx.tol = TOLS[d[0]];
+    cx.tol_s = TOL_S[d[0]];
+    cx.verbose = verbose;
+    cx.case_json = jobj({{"start", "[" + jnum(start.x) + "," + jnum(start.y) + "]"}, {"tolerance", jnum(cx.tol)}, {"sections", jarr({a.json(), b.json()})}});
+    cx.replay = "sub=array_then_continuation idx=" + std::to_string(idx);
+    Curve c = {};
+    c.init(start, cx.tol);
+    MState st;
+    SecOut o1, o2;
+    Model m1, m2;
+    do_section(cx, c, st, a, "none", o1, m1);
+    bool en = !o1.bad && do_section(cx, c, st, b, a.name, o2, m2);
+    if (!o1.bad && !en) { c.clear(); R->count("not_enabled"); return; }
+    R->count("cases");
+    R->count("array_predecessor_cases");
+    R->count("nontrivial");
+    R->outcome("history", fmt("%s>%s %s n=%d bad=%d", a.name.c_str(), KIND_NAME[b.kind], cx.tol_s.c_str(), o2.nnew, o1.bad || o2.bad));
+    if (!o1.bad && !o2.bad) {
+        // the same continuation through its command letter
+        std::vector<CurveInstruction> prog;
+        if (to_commands(b, prog)) {
+            Curve c2 = {};
+            c2.init(start, cx.tol);
+            apply_direct(c2, a);
+            uint64_t r = c2.commands(prog.data(), prog.size());
+            R->count("commands_compared");
+            if (r != prog.size() || !bits_equal(c, c2))
+                R->violation("commands", "differs-from-direct-call", {{"kind", jstr(KIND_NAME[b.kind])}, {"prev", jstr(a.name)}}, cx.case_json,
+                             fmt("commands() returned %llu of %zu; %llu vs %llu vertices", (unsigned long long)r, prog.size(), (unsigned long long)c.point_array.count, (unsigned long long)c2.point_array.count), cx.replay);
+            c2.clear();
+        }
+        if (idx % 211 == 3) R->sample("history", cx.case_json);
+    }
+    c.clear();
+}
+static void register_array_pairs() {
+    Radix rx;
+    rx.dims = {(int64_t)TOLS.size(), 2, 3, 8, 2, 6};
+    Sub s;
+    s.name = "array_then_continuation";
+    s.desc = "horizontal/vertical/segment array overloads with 1,2,3 coordinates (8 sets incl. doubling back) x relative x start, each followed by quadratic_smooth (scalar rel, array abs), cubic_smooth (rel, abs), turn (ccw, cw), directly and through the command letter; x tolerance";
+    s.n = rx.total();
+    s.chunk = 48;
+    s.run = [rx](int64_t idx, bool verbose) { run_array_pair(idx, rx.decode(idx), verbose); };
+    SUBS.push_back(s);
+}
+
 // ------------------------------------------------------------------ (C) malformed / partial command strings
 static void register_commands() {
     Sub s;
@@ -472,6 +547,7 @@ int main(int argc, char** argv) {
     register_commands();
     register_primitives(run.thorough());
     register_histories(run.thorough());
+    register_array_pairs();
     std::stable_sort(SUBS.begin(), SUBS.end(), [](const Sub& a, const Sub& b) { return a.n < b.n; });
 
     if (run.replaying()) {
